@@ -65,10 +65,12 @@ CHECKS["C04"] = {"text": "Proved on the model: every worker newly allocated to a
     "technique": "Coq proof: induction principle for __allocate + inductive invariant over runs; oracle on new allocations + correspondence of allocation lists at updated/allocated"}
 CHECKS["C05"] = {"text": "Proved on the model: simulate is total; no snapshot other than the final update has a step index >= max_time and at most max_time - start time steps are recorded; "
     "status is FINISHED_SUCCESS iff all tasks are FINISHED, FINISHED_FAILURE only with time >= max_time, and one of the two is always reported; a non-automatic non-exempt task that no worker "
-    "can serve (skill, team, fixed list) is never allocated, never WORKING/FINISHED, and the run does not report success. PARTIAL: the liveness clause (every feasible project completes "
-    "within the sequential work bound) is not proved; it is searched by the oracle on a feasible stream (feasibility predicate H1-H4 of DESIGN.md) and is the clause that found the SS/SF gate defects.",
-    "note": COMMON_NOTE + " PARTIAL: liveness is searched, not proved. 'simulate always returns' for the implementation (runtime exceptions) can only be searched.",
-    "technique": "Coq proof: induction over the trace shape + stuck-task invariant; liveness by oracle search; correspondence on time/status/task states"}
+    "can serve (skill, team, fixed list) is never allocated, never WORKING/FINISHED, and the run does not report success. LIVENESS is proved for the class: acyclic network with FS/SS links, no facilities or components, "
+    "every non-automatic task has an eligible worker (skill, team, fixed ids), positive lower bound delta on skills and automatic rates, all absences before a horizon H: every freshly initialised run reports "
+    "FINISHED_SUCCESS whenever max_time >= H + sum over tasks of (1 + ceil(work x (1 - progress) / delta)), for every priority rule, team structure, solo flag and task order (a natural-number measure over the unfinished "
+    "tasks never grows and drops in every step after H). Outside that class (facilities, placement, FF/SF links) liveness is searched by the oracle on a feasible stream; it is the clause that found the SS/SF gate defects.",
+    "note": COMMON_NOTE + " PARTIAL: liveness outside the stated class is searched. 'simulate always returns' for the implementation (runtime exceptions) can only be searched.",
+    "technique": "Coq proof: induction over the trace shape + stuck-task invariant + liveness by a decreasing measure (least-rank unfinished task, greedy allocation maximality, resource-state invariant); oracle search on the feasible stream; correspondence on time/status/task states"}
 CHECKS["C06"] = {"text": "Proved on the model: (a) after __update no task with an open ready gate is NONE; (b) an automatic task without component that is READY after __update is WORKING after the "
     "allocation phase of every step in which tasks may start; (d) after __update no WORKING task with exhausted work has an open finish gate, whatever the task list order (finishing fixpoint). "
     "PARTIAL: clause (c) (no FREE eligible worker / worker-facility pair is left idle while a task could accept it) is not proved; it is searched by the oracle on the contention stream.",
